@@ -2386,24 +2386,27 @@ class RawAlgorithmsMixIn:
         if numpy.ndim(v_data) == 3:
             D,P,N = v_data.shape
             if out is None:
-                out = numpy.zeros((D,P,N,N),dtype=v_data.dtype)
+                # the k-th diagonal of a square matrix of size N + |k|
+                out = numpy.zeros((D,P,N+abs(k),N+abs(k)),dtype=v_data.dtype)
             else:
                 out[...] = 0.
 
             for d in range(D):
                 for p in range(P):
-                    out[d,p] = numpy.diag(v_data[d,p])
+                    out[d,p] = numpy.diag(v_data[d,p], k)
 
             return out
 
         else:
             D,P,M,N = v_data.shape
             if out is None:
-                out = numpy.zeros((D,P,N),dtype=v_data.dtype)
+                # length of the k-th diagonal of an (M,N) matrix
+                L = numpy.diag(v_data[0,0], k).shape[0]
+                out = numpy.zeros((D,P,L),dtype=v_data.dtype)
 
             for d in range(D):
                 for p in range(P):
-                    out[d,p] = numpy.diag(v_data[d,p])
+                    out[d,p] = numpy.diag(v_data[d,p], k)
 
             return out
 
